@@ -10,7 +10,7 @@ cd /repo || exit 2
 git apply "$P" || exit 2
 # evidence files must describe runs on the unchanged tree: keep them out of harm's way
 rm -rf /tmp/evidence.keep; cp -r /verif/evidence /tmp/evidence.keep
-trap 'git -C /repo checkout -- . ; rm -rf /verif/evidence; mv /tmp/evidence.keep /verif/evidence' EXIT
+trap 'git -C /repo checkout -- . ; rm -rf /verif/evidence; mv /tmp/evidence.keep /verif/evidence; (cd /verif && VERIF_CONFIG=full ./check build >/dev/null 2>&1)' EXIT  # the last line rebuilds the binary from the clean tree
 for C in "$@"; do
   OUT=$(cd /verif && ./check $C ${TIER:-quick} 2>&1); rc=$?
   if [ $rc -eq 1 ] && echo "$OUT" | grep -q "^VIOLATION property=$C"; then
